@@ -90,7 +90,7 @@ def part_render(ctx):
             pass
         if got != pred:
             ctx.brk("reporter.go %s ~ Report.records" % fmt, {"format": fmt, "violations": c["violations"]}, got, pred)
-        elif got != want:
+        if got != want:
             ctx.fail("%s output does not present every violation exactly once with file, position, rule and level" % fmt,
                      {"format": fmt, "violations": c["violations"], "text": c["text"]}, None, {"got": got, "want": want})
         elif nontriv:
